@@ -255,6 +255,10 @@ def run_session(s):
         ev["args"] = names
         fn = getattr(MODS[entry["mod"]], entry["attr"])
         args, kwargs = entry["kw"](A.public(p), [store[n] for n in names])
+        # array arguments that are not rasters (kernels, transforms ...): they are arguments too and must not be modified
+        arr_args = [a for a in list(args) + list(kwargs.values()) if isinstance(a, np.ndarray)]
+        arr_before = [A.exact_digest(a) for a in arr_args]
+        ev["argchg"] = False
         res = None
         t0 = time.time()
         try:
@@ -273,6 +277,10 @@ def run_session(s):
             if s.get("trace_errors"):
                 ev["tb"] = traceback.format_exc()[-1500:]
         try:
+            ev["argchg"] = bool([A.exact_digest(a) for a in arr_args] != arr_before)
+        except Exception:
+            pass
+        try:
             ev["objs"] = [sn(n) for n in order]
         except Exception as ex:      # an input can no longer be read
             ev["objs"] = []
@@ -287,7 +295,7 @@ def run_session(s):
             # errors are outside the domain; the session stops here
             break
         # ---- write probe on the result
-        pv = {"ev": "probe", "f": c["f"], "variant": c.get("variant", 0), "raised": False, "err": "", "cfg": ev["cfg"], "fam": ev["fam"],
+        pv = {"ev": "probe", "f": c["f"], "variant": c.get("variant", 0), "raised": False, "err": "", "cfg": ev["cfg"], "fam": ev["fam"], "argchg": False,
               "new": [], "args": names, "res": rec, "dt": 0, "wrote": False}
         saved = []
         for m in arrays:
